@@ -6,6 +6,7 @@ mod gen;
 mod c01;
 mod c10;
 mod c12;
+mod c13;
 mod c18;
 mod c05;
 mod prog;
@@ -25,6 +26,7 @@ fn main() {
         "C01" | "C02" | "C09" | "C11" | "C14" | "C19" => c01::run(&mut sink, prop, thorough, seed),
         "C10" => c10::run(&mut sink, thorough, seed),
         "C12" => c12::run(&mut sink, thorough, seed),
+        "C13" => c13::run(&mut sink, thorough, seed),
         "C05" => c05::run(&mut sink, thorough, seed),
         "C03" => c03::run(&mut sink, thorough, seed),
         "replay" => { /* replay lines are `op args…` on stdin */
@@ -50,6 +52,7 @@ fn replay(sink: &mut common::Sink, toks: &[&str]) {
         "pv" | "pi" => c01::replay(sink, toks),
         "pfx" => c10::replay(sink, toks),
         "stream" => c12::replay(sink, toks),
+        "rfault" | "rfaultt" | "sfault" | "wfault" => c13::replay(sink, toks),
         "esc" | "escbufs" | "hex4" | "hex4s" | "scan" => c05::replay(sink, toks),
         "serc" | "serp" | "serbufs" | "serbufx" | "disp" => c03::replay(sink, toks),
         _ => eprintln!("cannot replay op {}", toks[0]),
